@@ -32,14 +32,14 @@ func (e c14Event) key() string {
 // c14Handler records events; the first handler blocks on gate before returning so the
 // harness decides how far the dispatcher lags behind the updater.
 type c14Handler struct {
-	w      *kit.World
-	mu     sync.Mutex
-	events []c14Event
-	errs   []string
+	w       *kit.World
+	mu      sync.Mutex
+	events  []c14Event
+	errs    []string
 	gate    chan struct{} // nil: never blocks
 	entered chan struct{} // with gate: signalled when the handler starts waiting on it
 	ack     chan struct{} // nil: no acknowledgement
-	mutate bool          // modify the received models after recording them
+	mutate  bool          // modify the received models after recording them
 }
 
 func (h *c14Handler) record(kind, table string, old, new model.Model) {
@@ -202,6 +202,11 @@ func TestC14(t *testing.T) {
 		// does); r = an event the stopping dispatcher still picked up
 		applied, released, queued := 0, 0, 0
 		restarts, restartsWithBacklog := 0, 0
+		bogus := 0
+		cur := kit.State{}
+		for _, tb := range s.Tables {
+			cur[tb.Name] = kit.Rows{}
+		}
 		maxLag := 0
 		var word strings.Builder
 		waitAck := func() bool {
@@ -248,6 +253,25 @@ func TestC14(t *testing.T) {
 					restartsWithBacklog++
 				}
 				word.WriteString("S")
+				continue
+			}
+			if bogus < 2 && rapid.IntRange(0, 7).Draw(t, "bogus") == 0 {
+				// a notification the cache must refuse (a row it already has is inserted again, a row
+				// it does not have is deleted): whatever it answers, it applies nothing, so no
+				// event may follow
+				tbn := s.Tables[rapid.IntRange(0, len(s.Tables)-1).Draw(t, "bogustable")]
+				existing := kit.SortedUUIDs(cur[tbn.Name])
+				if len(existing) > 0 && rapid.Bool().Draw(t, "dupinsert") {
+					u := rapid.SampledFrom(existing).Draw(t, "dupuuid")
+					r, _ := tbn.OvsRow(cur[tbn.Name][u], true)
+					_ = tc.Update2(nil, ovsdb.TableUpdates2{tbn.Name: {u: &ovsdb.RowUpdate2{Insert: &r}}})
+					word.WriteString("X")
+				} else {
+					u := kit.MkUUID(880000 + bogus)
+					_ = tc.Update(nil, ovsdb.TableUpdates{tbn.Name: {u: &ovsdb.RowUpdate{Old: &ovsdb.Row{}}}})
+					word.WriteString("Y")
+				}
+				bogus++
 				continue
 			}
 			doA := canA && (!canR || rapid.Bool().Draw(t, "apply"))
@@ -298,6 +322,13 @@ func TestC14(t *testing.T) {
 				if aerr != nil {
 					fail("cache.apply-error", "notification %d: %v", applied, aerr)
 				}
+				for _, c := range n.changes {
+					if c.New == nil {
+						delete(cur[c.Table], c.UUID)
+					} else {
+						cur[c.Table][c.UUID] = c.New
+					}
+				}
 				queued += len(n.changes)
 				applied++
 				word.WriteString("A")
@@ -323,6 +354,8 @@ func TestC14(t *testing.T) {
 		select {
 		case <-ack:
 			fail("events.spurious", "more events delivered than row changes applied (%d)", totalEvents)
+		case <-entered:
+			fail("events.spurious", "an event is being delivered although all %d applied row changes were delivered already (refused notifications: %d)", totalEvents, bogus)
 		default:
 		}
 		// ---- oracle ----
@@ -404,6 +437,6 @@ func TestC14(t *testing.T) {
 			}
 		}
 		kit.Record("C14", schemaKinds(s)+word.String()+fmt.Sprint(nh), rich && maxLag >= 2, func() interface{} { kase.Schedule = word.String(); return kase },
-			fmt.Sprintf("handlers:%d", nh), fmt.Sprintf("maxlag>=2:%v", maxLag >= 2), fmt.Sprintf("dispatcher-restarts:%d", restarts), fmt.Sprintf("restarts-with-backlog>=2:%d", restartsWithBacklog))
+			fmt.Sprintf("handlers:%d", nh), fmt.Sprintf("maxlag>=2:%v", maxLag >= 2), fmt.Sprintf("dispatcher-restarts:%d", restarts), fmt.Sprintf("refused-notifications:%d", bogus), fmt.Sprintf("restarts-with-backlog>=2:%d", restartsWithBacklog))
 	})
 }
